@@ -12,6 +12,13 @@ happened to choose:
   P2  `if c: v = a` / `else: v = b` (single assignments to the same target) -> `v = a if c else b`,
       applied bottom-up so that elif chains become nested conditional expressions.
   P3  `for i, x in enumerate(L)` where i is unused -> `for x in L`.
+  P5  the same statements at several leaves of a nest of ifs whose other leaves are empty -> one copy guarded by the
+      disjunction of the path conditions.
+  P6  `dict(a=x, b=y)` -> `{'a': x, 'b': y}`.
+  P7  `set([e for ..])` / `set(e for ..)` -> `{e for ..}`.
+  P9  `v = a` directly followed by `if c: v = b` -> `v = b if c else a`.
+  P10 the local defined once as `m.opti if hasattr(m, 'opti') else m` is named `opti`.
+  P4  `if c: r.m(a)` / `else: r.m(b)` (same callee, one differing positional argument) -> `r.m(a if c else b)`.
 
 Nothing here changes what the analysed program would compute.
 """
@@ -149,6 +156,16 @@ class _Canon(ast.NodeTransformer):
                 call = ast.Call(func=ast.Attribute(value=tgt, attr="extend", ctx=ast.Load()), args=[n.value], keywords=[])
             self.count += 1
             return ast.copy_location(ast.Expr(value=ast.copy_location(call, n)), n)
+        if isinstance(n.op, ast.Add) and isinstance(n.target, (ast.Name, ast.Attribute)) and \
+                (isinstance(n.value, ast.ListComp) or (isinstance(n.value, ast.Call) and isinstance(n.value.func, ast.Name) and n.value.func.id == "list")):
+            # the right-hand side is a list, so the target is one: L += E is L.extend(E)
+            tgt = copy.deepcopy(n.target)
+            for x in ast.walk(tgt):
+                if hasattr(x, "ctx"):
+                    x.ctx = ast.Load()
+            call = ast.Call(func=ast.Attribute(value=tgt, attr="extend", ctx=ast.Load()), args=[n.value], keywords=[])
+            self.count += 1
+            return ast.copy_location(ast.Expr(value=ast.copy_location(call, n)), n)
         return n
 
     def visit_If(self, n):
@@ -159,6 +176,55 @@ class _Canon(ast.NodeTransformer):
                 self.count += 1
                 new = ast.Assign(targets=[a.targets[0]], value=ast.copy_location(ast.IfExp(test=n.test, body=a.value, orelse=b.value), n))
                 return ast.copy_location(new, n)
+        # P5: the same statement list at two or more leaves of a nest of ifs (other leaves empty) -> one guarded copy
+        leaves = []
+
+        def collect(stmts, conds):
+            if len(stmts) == 1 and isinstance(stmts[0], ast.If):
+                i = stmts[0]
+                collect(i.body, conds + [(i.test, True)])
+                collect(i.orelse, conds + [(i.test, False)])
+            else:
+                leaves.append((conds, stmts))
+        collect([n], [])
+        full = [(c, st) for c, st in leaves if st and not (len(st) == 1 and isinstance(st[0], ast.Pass))]
+        if len(full) >= 2 and len(leaves) > len(full) - 1 and len({"\n".join(ast.dump(x) for x in st) for c, st in full}) == 1 \
+                and not any(isinstance(x, (ast.Continue, ast.Break, ast.Return, ast.Raise)) for x in full[0][1]) and len(full) < len(leaves) + 1:
+            def conj(conds):
+                parts = [copy.deepcopy(t) if pol else ast.UnaryOp(op=ast.Not(), operand=copy.deepcopy(t)) for t, pol in conds]
+                return parts[0] if len(parts) == 1 else ast.BoolOp(op=ast.And(), values=parts)
+            if len(full) == len(leaves):
+                pass   # every leaf runs the statements: leave it (tests may matter); rare
+            else:
+                test = ast.BoolOp(op=ast.Or(), values=[conj(c) for c, st in full])
+                self.count += 1
+                return ast.copy_location(ast.If(test=ast.copy_location(test, n), body=full[0][1], orelse=[]), n)
+        # P4: `if c: r.m(a) else: r.m(b)` (same callee, exactly one differing positional argument) -> r.m(a if c else b)
+        if len(n.body) == 1 and len(n.orelse) == 1 and isinstance(n.body[0], ast.Expr) and isinstance(n.orelse[0], ast.Expr) \
+                and isinstance(n.body[0].value, ast.Call) and isinstance(n.orelse[0].value, ast.Call):
+            a, b = n.body[0].value, n.orelse[0].value
+            if ast.dump(a.func) == ast.dump(b.func) and len(a.args) == len(b.args) and [ast.dump(k) for k in a.keywords] == [ast.dump(k) for k in b.keywords] \
+                    and not any(isinstance(x, ast.Starred) for x in a.args + b.args):
+                diff = [i for i, (x, y) in enumerate(zip(a.args, b.args)) if ast.dump(x) != ast.dump(y)]
+                if len(diff) == 1:
+                    i = diff[0]
+                    self.count += 1
+                    args = list(a.args)
+                    args[i] = ast.copy_location(ast.IfExp(test=n.test, body=a.args[i], orelse=b.args[i]), n)
+                    call = ast.copy_location(ast.Call(func=a.func, args=args, keywords=a.keywords), n)
+                    return ast.copy_location(ast.Expr(value=call), n)
+        return n
+
+    def visit_Call(self, n):
+        self.generic_visit(n)
+        # P6: dict(a=x, b=y) -> {'a': x, 'b': y}
+        if isinstance(n.func, ast.Name) and n.func.id == "dict" and not n.args and n.keywords and all(k.arg is not None for k in n.keywords):
+            self.count += 1
+            return ast.copy_location(ast.Dict(keys=[ast.copy_location(ast.Constant(value=k.arg), n) for k in n.keywords], values=[k.value for k in n.keywords]), n)
+        # P7: set([..comprehension..]) -> {..comprehension..};  list(d.keys()) stays
+        if isinstance(n.func, ast.Name) and n.func.id == "set" and len(n.args) == 1 and not n.keywords and isinstance(n.args[0], (ast.ListComp, ast.GeneratorExp)):
+            self.count += 1
+            return ast.copy_location(ast.SetComp(elt=n.args[0].elt, generators=n.args[0].generators), n)
         return n
 
     def visit_For(self, n):
@@ -175,11 +241,136 @@ class _Canon(ast.NodeTransformer):
         return n
 
 
+def _default_then_override(tree):
+    """P9: `v = a` directly followed by `if c: v = b` (no else; neither c nor b mentions v) -> `v = b if c else a`."""
+    count = 0
+    for node in ast.walk(tree):
+        for field in ("body", "orelse", "finalbody"):
+            blk = getattr(node, field, None)
+            if not (isinstance(blk, list) and blk and isinstance(blk[0], ast.stmt)):
+                continue
+            i = 0
+            while i + 1 < len(blk):
+                a, b = blk[i], blk[i + 1]
+                if isinstance(a, ast.Assign) and len(a.targets) == 1 and isinstance(a.targets[0], ast.Name) and isinstance(b, ast.If) and not b.orelse and len(b.body) == 1 \
+                        and isinstance(b.body[0], ast.Assign) and len(b.body[0].targets) == 1 and isinstance(b.body[0].targets[0], ast.Name) \
+                        and b.body[0].targets[0].id == a.targets[0].id:
+                    v = a.targets[0].id
+                    mentions = any(isinstance(x, ast.Name) and x.id == v for part in (b.test, b.body[0].value) for x in ast.walk(part))
+                    path = a.value
+                    while isinstance(path, ast.Attribute):
+                        path = path.value
+                    if mentions and isinstance(path, ast.Name) and path.id != v:
+                        # the default is a plain access path: uses of v in the test / override denote that path
+                        class _Sub(ast.NodeTransformer):
+                            def visit_Name(self, x):
+                                return copy.deepcopy(a.value) if x.id == v and isinstance(x.ctx, ast.Load) else x
+                        b.test = _Sub().visit(b.test)
+                        b.body[0].value = _Sub().visit(b.body[0].value)
+                        mentions = False
+                    if not mentions:
+                        new = ast.Assign(targets=[a.targets[0]], value=ast.copy_location(ast.IfExp(test=b.test, body=b.body[0].value, orelse=a.value), b))
+                        blk[i:i + 2] = [ast.copy_location(new, a)]
+                        count += 1
+                        continue
+                i += 1
+    return count
+
+
+def _is_opti_handle(v):
+    """`m.opti if hasattr(m, 'opti') else m` -- the idiom by which methods obtain the Opti instance from an Ocp or an Opti."""
+    if not isinstance(v, ast.IfExp):
+        return False
+    t = v.test
+    if not (isinstance(t, ast.Call) and isinstance(t.func, ast.Name) and t.func.id == "hasattr" and len(t.args) == 2
+            and isinstance(t.args[1], ast.Constant) and t.args[1].value == "opti"):
+        return False
+    m = ast.dump(t.args[0])
+    return isinstance(v.body, ast.Attribute) and v.body.attr == "opti" and ast.dump(v.body.value) == m and ast.dump(v.orelse) == m
+
+
+def _name_opti_handle(tree):
+    """P10: the local that holds the Opti handle (defined once by the idiom above) is called `opti`."""
+    count = 0
+    for f in ast.walk(tree):
+        if not isinstance(f, (ast.FunctionDef, ast.AsyncFunctionDef)):
+            continue
+        bound = {a.arg for a in f.args.args + f.args.kwonlyargs} | {x.arg for x in (f.args.vararg, f.args.kwarg) if x}
+        stores = {}
+        for n in ast.walk(f):
+            if isinstance(n, ast.Name) and isinstance(n.ctx, ast.Store):
+                stores.setdefault(n.id, 0)
+                stores[n.id] += 1
+        cands = [st for st in f.body if isinstance(st, ast.Assign) and len(st.targets) == 1 and isinstance(st.targets[0], ast.Name) and _is_opti_handle(st.value)]
+        if len(cands) != 1:
+            continue
+        old = cands[0].targets[0].id
+        if old == "opti" or stores.get(old) != 1 or "opti" in bound or "opti" in stores or old in bound:
+            continue
+        if any(isinstance(n, ast.Name) and n.id == "opti" for n in ast.walk(f)):
+            continue
+        for n in ast.walk(f):
+            if isinstance(n, ast.Name) and n.id == old:
+                n.id = "opti"
+        count += 1
+    return count
+
+
+def _is_list_expr(v):
+    return isinstance(v, (ast.List, ast.ListComp)) or (isinstance(v, ast.Call) and isinstance(v.func, ast.Name) and v.func.id == "list")
+
+
+def _aug_on_known_lists(tree):
+    """P1b: `L += E` on a local whose every plain assignment is a list display / comprehension / list(..) -> L.extend(E)."""
+    count = 0
+    for f in ast.walk(tree):
+        if not isinstance(f, (ast.FunctionDef, ast.AsyncFunctionDef)):
+            continue
+        params = {a.arg for a in f.args.args + f.args.kwonlyargs}
+        vals, other = {}, set()
+        for n in ast.walk(f):
+            if isinstance(n, ast.Assign):
+                for t in n.targets:
+                    if isinstance(t, ast.Name):
+                        vals.setdefault(t.id, []).append(n.value)
+                    else:
+                        for x in ast.walk(t):
+                            if isinstance(x, ast.Name) and isinstance(x.ctx, ast.Store):
+                                other.add(x.id)
+            elif isinstance(n, (ast.For, ast.comprehension)):
+                for x in ast.walk(n.target):
+                    if isinstance(x, ast.Name):
+                        other.add(x.id)
+            elif isinstance(n, (ast.With,)):
+                for it in n.items:
+                    if it.optional_vars is not None:
+                        for x in ast.walk(it.optional_vars):
+                            if isinstance(x, ast.Name):
+                                other.add(x.id)
+        lists = {nm for nm, vs in vals.items() if nm not in other and nm not in params and all(_is_list_expr(v) for v in vs)}
+        if not lists:
+            continue
+
+        class T(ast.NodeTransformer):
+            def visit_AugAssign(self, n):
+                nonlocal count
+                if isinstance(n.op, ast.Add) and isinstance(n.target, ast.Name) and n.target.id in lists:
+                    call = ast.Call(func=ast.Attribute(value=ast.Name(id=n.target.id, ctx=ast.Load()), attr="extend", ctx=ast.Load()), args=[n.value], keywords=[])
+                    count += 1
+                    return ast.copy_location(ast.Expr(value=ast.copy_location(call, n)), n)
+                return n
+        T().visit(f)
+    return count
+
+
 def canonicalise(prog):
     total = 0
     for m in prog.modules.values():
         c = _Canon()
         c.visit(m.tree)
+        c.count += _default_then_override(m.tree)
+        c.count += _name_opti_handle(m.tree)
+        c.count += _aug_on_known_lists(m.tree)
         total += c.count
         if c.count:
             ast.fix_missing_locations(m.tree)
